@@ -203,6 +203,9 @@ func (cs *ColumnSeries) Project(keepList []string) error {
 			log.Debug(fmt.Sprintf("%s column doesn't exist in the column series. ignored.", name))
 			continue
 		}
+		if _, dup := newCols[name]; dup {
+			continue // a name listed twice is kept once
+		}
 		newCols[name] = col
 		newNames = append(newNames, name)
 	}
